@@ -145,7 +145,7 @@ class FileCache:
             if info is None or not info[0]:
                 self._unload_file(file_name)
                 future = self.executor.submit(self._write_file, file_name, new_file_contents, use_fsync)
-                self.file_futures[file_name] = (True, claim, future)
+                self.file_futures[file_name] = (True, 0, future)
                 write_applied = True
             else:
                 assert info[0]
@@ -237,7 +237,7 @@ class FileCache:
             if info is None:
                 tinfo(f"get_file: {file_name}")
                 future = self.executor.submit(self._load_file, file_name)
-                self.file_futures[file_name] = (False, claim, future)
+                self.file_futures[file_name] = (False, 0, future)
             else:
                 tinfo(f"get_file [cached]: {file_name}")
                 future = info[-1]
